@@ -1,4 +1,6 @@
 import JSL.Lib.StepSpec
+import JSL.Inv.EnvReach
+import JSL.Props.C12
 
 /-!
 # C18 — declining changes only the offer list or the clock; truncation counts exactly
@@ -139,5 +141,27 @@ theorem c18_inactive_never (res : SMResult) (m : MwState) (r : Rng) (a : AgentAc
     (out : SMResult × MwState × Rng × List State) (hoff : mc.truncActive = false)
     (h : mwStep orc inst cfg mc fuel res m r a = .ok out) : out.2.1.joker = m.joker := by
   rw [c18_joker_step res m r a out h]; simp [hoff]
+
+/-- **Declining the last offer strictly advances time** – in every environment state of every
+episode: if the step goes on (success, shop not done) the clock of the new state is strictly
+later than before. -/
+theorem c18_decline_last_advances {ec : EnvCfg} {st : RewardStatic} {s0 : State} {e : EnvState}
+    (hst : Start orc inst s0) (hr : EnvReach orc inst ec st s0 e) (o : Transition) (hp : e.res.possible = [o])
+    (m : MwState) (r : Rng) (out : SMResult × MwState × Rng × List State)
+    (h : mwStep orc inst ec.sm mc fuel e.res m r .decline = .ok out)
+    (hs : out.1.success = true) (hd : out.1.done = false) :
+    e.res.state.time < out.1.state.time := by
+  obtain ⟨r', mic, hstep, _⟩ := c18_decline_last_is_forced_jump e.res m r o hp out h
+  have hne : e.res.possible ≠ [] := by rw [hp]; simp
+  have hi := envReach_inv hst hr
+  obtain ⟨w, hI, hS⟩ := occursA_inv hst (hi.live hne).1
+  have nn := nonnegB_sound hst.samples hst.nonneg
+  have ha : Admissible { transitions := [], noOp := true, tm := .forceJump } := ⟨by simp, by simp⟩
+  obtain ⟨p, t, hp', ht, hle⟩ := (smStep_clock w nn hI hS ha hstep).2.2.2.2 hs hd
+  simp [sortedByTransport, processTransitions] at hp'
+  subst hp'
+  simp only [runTimeMachine] at ht
+  have := forceJump_strict w hI hS (hi.quiet hne) ht
+  omega
 
 end JSL
